@@ -17,7 +17,7 @@ import (
 	"cuelang.org/go/cue/cuecontext"
 	"cuelang.org/go/cue/format"
 	"cuelang.org/go/cue/parser"
-		"cuelang.org/go/verifharness/kit"
+	"cuelang.org/go/verifharness/kit"
 	"cuelang.org/go/verifharness/tlaval"
 )
 
